@@ -208,6 +208,19 @@ pub fn run_c09(seed: u64, n: usize, out: &mut Out) {
             net.push("/adframe/$image".into());
             net.push("/adframe/$font".into());
         }
+        if r.pct(50) {
+            // families of fusable rules in which two different lines are the same rule (same pattern, same mask,
+            // options spelled in another order): whatever de-duplicates or orders them must not depend on hashing
+            for k in 0..2 + r.below(6) {
+                net.push(format!("/adfamily{}/x1$script,image", k));
+                net.push(format!("/adfamily{}/x1$image,script", k));
+                net.push(format!("/adfamily{}/x2$script,image", k));
+                net.push(format!("/adfamily{}/x3$image,script", k));
+                if r.pct(50) {
+                    net.push(format!("/adfamily{}/x2$image,script", k));
+                }
+            }
+        }
         let mut all = net.clone();
         all.extend(cos.iter().cloned());
         let optimize = r.pct(60);
@@ -310,6 +323,8 @@ fn small_lists() -> Vec<Vec<String>> {
         vec!["a$script".into(), "/x^*y$tag=t1".into(), "||cdn.test^$csp=script-src 'none'".into(), "*$removeparam=utm".into(), "||r.test^$redirect=a.js".into()],
         vec!["example.com##.ad".into(), "example.com#@#.ad2".into(), "example.com##+js(f1, x)".into(), "##.generic".into(), "###id.compound".into(), "example.com##.s:style(color: red)".into()],
         vec!["||h.test^$important,tag=t1".into(), "/re[0-9]+/$script".into(), "|https://$domain=a.com|~b.a.com".into(), "@@||x.test^$generichide".into()],
+        // fusable rules of one tag in one bucket (the optimiser runs over decoded rules when tags are applied)
+        vec!["/ads/a$tag=t1".into(), "/ads/b$tag=t1".into(), "/ads/c$tag=t1".into(), "/ads/d$tag=t2".into(), "/ads/e$tag=t2".into(), "/ads/f".into(), "/ads/g".into()],
     ]
 }
 
@@ -478,6 +493,16 @@ pub fn c10_child(seed: u64, n: usize, dir: &str, tier: &str) {
                 continue;
             }
             let payload = match std::str::from_utf8(&good[start..start + len]) { Ok(p) => p, Err(_) => continue };
+            // the whole string replaced by nil and by the empty string (optional fields that the parser fills for
+            // all rules of a list or for none: here one rule loses its field)
+            {
+                for repl in [0xc0u8, 0xa0u8] {
+                    let mut v = good[..i].to_vec();
+                    v.push(repl);
+                    v.extend_from_slice(&good[start + len..]);
+                    variants.push((format!("string at {} replaced by {:#x}", i, repl), v));
+                }
+            }
             if !(payload.starts_with('{') || payload.starts_with('[')) {
                 continue;
             }
